@@ -3,6 +3,7 @@ C17 — driver: replays an implementation trace through the model (correspondenc
 
   type <T>                          => ok
   load <style> <doc> <doc2|->       => jy= jt= LJ= LY= LT= [RJ= RY= RT=] U= S=
+  munm <optbits> <style> <doc>      => MJB= MJR= MYB= MYR= MTB= MTR= [S=]
   file <ext> <env> <pre> <var> <val> <post> => ok:"…" | err
 -/
 import GoZero.Base.Trace
@@ -28,6 +29,43 @@ def primOf (s : String) : Option Prim :=
   | "f32" => some (.float 32) | "f64" => some (.float 64)
   | _ => none
 
+def splitOnC (c : Char) : List Char → List (List Char)
+  | [] => [[]]
+  | x :: xs =>
+    match splitOnC c xs with
+    | [] => [[]]
+    | h :: t => if x = c then [] :: h :: t else (x :: h) :: t
+
+/-- `[1:5)` -/
+def parseRange (cs : List Char) : Option Range :=
+  match cs with
+  | [] => none
+  | l :: rest =>
+    match rest.reverse with
+    | [] => none
+    | rc :: midRev =>
+      let mid := midRev.reverse
+      if (l = '[' ∨ l = '(') ∧ (rc = ']' ∨ rc = ')') then
+        match splitOnC ':' mid with
+        | [a, b] => some { leftInc := l = '[', left := a, right := b, rightInc := rc = ']' }
+        | _ => none
+      else none
+
+/-- the flags of a field: letters, then `!d<default>` `!v<env var>` `!r<range>` `!p<opt>/<opt>`. -/
+def parseFlags (name key fl : List Char) : Option FMeta :=
+  match splitOnC '!' fl with
+  | [] => none
+  | letters :: segs =>
+    let base : FMeta := { name := name, key := key, optional := letters.contains 'o', embedded := letters.contains 'e',
+                          inherit := letters.contains 'i', fromString := letters.contains 's' }
+    segs.foldl (fun acc sg =>
+      match acc, sg with
+      | some f, 'd' :: v => some { f with dflt := v }
+      | some f, 'v' :: v => some { f with envVar := v }
+      | some f, 'r' :: v => (parseRange v).map fun rg => { f with range := some rg }
+      | some f, 'p' :: v => some { f with options := splitOnC '/' v }
+      | _, _ => none) (some base)
+
 mutual
 partial def parseTy : List Char → Option (Ty × List Char)
   | '*' :: r => (parseTy r).map fun (t, r') => (.ptr t, r')
@@ -48,14 +86,13 @@ partial def parseFields (cs : List Char) : Option (Fields × List Char) :=
       let (fl, r3) := takeUntil (· = '=') r2
       match r3 with
       | '=' :: r3 =>
-        match parseTy r3 with
-        | none => none
-        | some (t, r4) =>
-          let f : FMeta := { name := name, key := key, optional := fl.contains 'o', embedded := fl.contains 'e' }
+        match parseTy r3, parseFlags name key fl with
+        | some (t, r4), some f =>
           match r4 with
           | ';' :: r5 => (parseFields r5).map fun (fs, r6) => (.cons f t fs, r6)
           | '}' :: r5 => some (.cons f t .nil, r5)
           | _ => none
+        | _, _ => none
       | _ => none
     | _ => none
   | _ => none
@@ -175,19 +212,37 @@ def printRes : R Val → String
 def obs? (toks : List String) (key : String) : Option String :=
   toks.findSome? fun t => if t.startsWith (key ++ "=") then some (t.drop (key.length + 1)).toString else none
 
-/-- nil map ≡ empty map, used by the non-strict comparison with encoding/json. -/
+/-- nil map ≡ empty map: classifies a difference with encoding/json. -/
 def normNil (s : String) : String := s.replace "~m" "{}"
+
+mutual
+/-- the environment the harness sets for a type: a variable `C17E_<value>` holds `<value>`, every other is unset. -/
+def envOfTy : Ty → List (Str × Str)
+  | .prim _ => []
+  | .ptr t => envOfTy t
+  | .slice t => envOfTy t
+  | .map t => envOfTy t
+  | .struct fs => envOfFields fs
+def envOfFields : Fields → List (Str × Str)
+  | .nil => []
+  | .cons f t rest =>
+    (if f.envVar.take 5 = "C17E_".toList then [(f.envVar, f.envVar.drop 5)] else []) ++ envOfTy t ++ envOfFields rest
+end
+
+/-- the pinned float32 conversion is tried when the fixed model does not explain the observation (the unpatched tree). -/
+def eitherF32 (f : Opts → String) (o : Opts) (impl : Option String) : String :=
+  let a := f o
+  if impl = some a then a else
+    let b := f { o with f32Pinned := true }
+    if impl = some b then b else a
 
 structure St where
   fs : Option Fields := none
 
-/-- `loose`: the document contains a null; then which failing entry of a Go map is met first (an error or the
-panic of `fillSlice` on a null map entry) depends on Go's map iteration order, so `panic` and `err` are both accepted. -/
-def checkTok (r : Report) (s : Section) (l : Line) (key : String) (model : String) (loose : Bool := false) : Report :=
+def checkTok (r : Report) (s : Section) (l : Line) (key : String) (model : String) : Report :=
   match obs? l.obs key with
   | some impl =>
     if impl = model then r
-    else if loose ∧ (impl = "panic" ∨ impl = "err") ∧ (model = "panic" ∨ model = "err") then r.addCover "panic-or-err-by-map-order"
     else r.mismatch s.idx l.idx s!"{key}={model}" s!"{key}={impl}"
   | none => r.mismatch s.idx l.idx s!"{key}={model}" s!"{key} missing"
 
@@ -204,30 +259,82 @@ def tomlFront (j : J) (k : T → String) : String :=
     | some t => if tomlIntsOk j then k t else "err"
   | _ => "skip"
 
-def runLoad (r : Report) (s : Section) (l : Line) (fs : Fields) (strict : Bool) (j : J) (j2 : Option J) : Report := Id.run do
+mutual
+/-- some field carries `,string`, which encoding/json interprets too (not in `Std.lean`). -/
+def tyHasStringOpt : Ty → Bool
+  | .prim _ => false
+  | .ptr t => tyHasStringOpt t
+  | .slice t => tyHasStringOpt t
+  | .map t => tyHasStringOpt t
+  | .struct fs => fieldsHaveStringOpt fs
+def fieldsHaveStringOpt : Fields → Bool
+  | .nil => false
+  | .cons f t rest => f.fromString || tyHasStringOpt t || fieldsHaveStringOpt rest
+end
+
+mutual
+def tyHasDotKey : Ty → Bool
+  | .prim _ => false
+  | .ptr t => tyHasDotKey t
+  | .slice t => tyHasDotKey t
+  | .map t => tyHasDotKey t
+  | .struct fs => fieldsHaveDotKey fs
+def fieldsHaveDotKey : Fields → Bool
+  | .nil => false
+  | .cons f t rest => f.tagKey.contains '.' || tyHasDotKey t || fieldsHaveDotKey rest
+end
+
+/-- **agreement with encoding/json** (second sentence of the property): for a type with plain name tags, whenever
+the go-zero entry point `key` and encoding/json (`S`) both accept, the values must be deeply equal.  Every difference
+is reported; the message names the class of the difference (the classes that are known, inherent divergences are
+listed in known_findings.json). -/
+def stdMonitor (r : Report) (s : Section) (l : Line) (fs : Fields) (j : J) (key at_ : String) : Report :=
+  let oU := (obs? l.obs key).getD "?"
+  let oS := (obs? l.obs "S").getD "?"
+  if ¬ plainTy (.struct fs) then r.addCover "std-not-plain-type"
+  else if ¬ (oU.startsWith "ok:" ∧ oS.startsWith "ok:") then r.addCover "std-not-both-accept"
+  else if oU = oS then r.addCover "std-agree"
+  else
+    let cls :=
+      if ¬ noNull j then "null"
+      else if ¬ noCaseCollision j ∨ ¬ keysExact (.struct fs) j then "case-fold"
+      else if tyHasDotKey (.struct fs) then "dotted-key"
+      else if normNil oU = normNil oS then "nil-vs-empty-map"
+      else if ¬ f32StableDoc j then "float32-double-rounding"
+      else "value"
+    (r.addCover ("std-differ-" ++ cls)).violation s.idx l.idx
+      s!"std-disagree class={cls} at={at_} go-zero=[{oU}] encoding/json=[{oS}] doc=[{printTree j}]"
+
+def runLoad (r : Report) (s : Section) (l : Line) (fs : Fields) (j : J) (j2 : Option J) : Report := Id.run do
   let mut r := r
   -- model: the generic trees behind the front ends, and every decoder
   let jy := yamlGlue (embY j)
   r := checkTok r s l "jy" (printTree jy)
   r := checkTok r s l "jt" (tomlFront j (fun t => printTree (tomlGlue t)))
-  let mLJ := printRes (loadJson fs j)
-  let mLY := printRes (loadYaml fs (embY j))
-  let mLT := tomlFront j (fun t => printRes (loadToml fs t))
-  let loose := !(noNull j)
-  r := checkTok r s l "LJ" mLJ loose
-  r := checkTok r s l "LY" mLY loose
-  r := checkTok r s l "LT" mLT loose
+  let oc : Opts := { confOpts with env := envOfTy (.struct fs) }
+  let mLJ := eitherF32 (fun o => printRes (loadJsonO o fs j)) oc (obs? l.obs "LJ")
+  let mLY := eitherF32 (fun o => printRes (loadYamlO o fs (embY j))) oc (obs? l.obs "LY")
+  let mLT := eitherF32 (fun o => tomlFront j (fun t => printRes (loadTomlO o fs t))) oc (obs? l.obs "LT")
+  -- keys colliding up to case: the pinned loader is nondeterministic there; such documents are checked by `cload`
+  let coll := !(noCaseCollision j)
+  if coll then r := r.addCover "load-collision-unchecked"
+  let ck (r : Report) (key model : String) : Report := if coll then r else checkTok r s l key model
+  r := ck r "LJ" mLJ
+  r := ck r "LY" mLY
+  r := ck r "LT" mLT
   r := r.addCover ("load-" ++ classOf mLJ)
   match j2 with
   | some j2 =>
-    r := checkTok r s l "RJ" (printRes (loadJson fs j2)) loose
-    r := checkTok r s l "RY" (printRes (loadYaml fs (embY j2))) loose
-    r := checkTok r s l "RT" (tomlFront j2 (fun t => printRes (loadToml fs t))) loose
+    r := ck r "RJ" (eitherF32 (fun o => printRes (loadJsonO o fs j2)) oc (obs? l.obs "RJ"))
+    r := ck r "RY" (eitherF32 (fun o => printRes (loadYamlO o fs (embY j2))) oc (obs? l.obs "RY"))
+    r := ck r "RT" (eitherF32 (fun o => tomlFront j2 (fun t => printRes (loadTomlO o fs t))) oc (obs? l.obs "RT"))
   | none => pure ()
-  let mU := printRes (unmarshalJson fs j)
-  r := checkTok r s l "U" mU loose
+  let ou : Opts := { env := envOfTy (.struct fs) }
+  let mU := eitherF32 (fun o => printRes (unmarshalWith o fs j)) ou (obs? l.obs "U")
+  if mU ≠ printRes (unmarshalWith ou fs j) then r := r.addCover "pinned-float32-double-rounding"
+  r := checkTok r s l "U" mU
   r := r.addCover ("unmarshal-" ++ classOf mU)
-  if hasEmbeddedDeep (.struct fs) then r := r.addCover "std-embedded-not-modelled"
+  if hasEmbeddedDeep (.struct fs) ∨ tyHasStringOpt (.struct fs) then r := r.addCover "std-embedded-not-modelled"
   else
     let mS := printRes (stdDecode fs j)
     r := checkTok r s l "S" mS
@@ -238,10 +345,9 @@ def runLoad (r : Report) (s : Section) (l : Line) (fs : Fields) (strict : Bool) 
   let oLY := np ((obs? l.obs "LY").getD "?")
   let oLT := np ((obs? l.obs "LT").getD "?")
   if l.obs.any (fun t => t.endsWith "=panic") then
-    if noNull j then
-      r := r.violation s.idx l.idx s!"loader-panicked class=panic obs=[{joinSp (l.obs.filter fun t => t.endsWith "=panic")}] doc=[{printTree j}]"
-    else r := r.addCover "panic-on-null-document"
-  if inScope j then
+    let cls := if printRes (loadJsonO { oc with f32Pinned := true } fs j) = "panic" then "env-float32-pointer" else "panic"
+    r := r.violation s.idx l.idx s!"loader-panicked class={cls} obs=[{joinSp (l.obs.filter fun t => t.endsWith "=panic")}] doc=[{printTree j}]"
+  if inScope j ∧ ¬ coll then
     r := r.addCover "format-independence-checked"
     if oLJ ≠ oLY ∨ oLJ ≠ oLT then
       r := r.violation s.idx l.idx s!"format-dependent class=format LJ=[{oLJ}] LY=[{oLY}] LT=[{oLT}] doc=[{printTree j}]"
@@ -262,27 +368,165 @@ def runLoad (r : Report) (s : Section) (l : Line) (fs : Fields) (strict : Bool) 
       else r := r.addCover "recase-collision-excluded"
     else r := r.mismatch s.idx l.idx "recasing-of-doc" "doc2 is not a type-directed re-casing of doc"
   | none => pure ()
-  let oU := (obs? l.obs "U").getD "?"
-  let oS := (obs? l.obs "S").getD "?"
-  if plainTy (.struct fs) then
-    if oU.startsWith "ok:" ∧ oS.startsWith "ok:" then
-      let scope := noNull j ∧ noCaseCollision j ∧ keysExact (.struct fs) j ∧ inScope j
-      if oU = oS then r := r.addCover "std-agree"
-      else if scope ∧ normNil oU = normNil oS then
-        r := r.addCover "std-differ-nil-vs-empty-map"
-        if strict then
-          r := r.violation s.idx l.idx s!"std-disagree class=nil-vs-empty-map U=[{oU}] S=[{oS}] doc=[{printTree j}]"
-      else if scope then
-        r := r.violation s.idx l.idx s!"std-disagree class=value U=[{oU}] S=[{oS}] doc=[{printTree j}]"
-      else
-        r := r.addCover (if ¬ noNull j then "std-differ-null-excluded"
-                         else if ¬ noCaseCollision j then "std-differ-case-collision-excluded"
-                         else if ¬ keysExact (.struct fs) j then "std-differ-inexact-key-excluded"
-                         else "std-differ-noncanonical-number-excluded")
-        if strict ∧ noNull j then
-          r := r.violation s.idx l.idx s!"std-disagree class=case-fold U=[{oU}] S=[{oS}] doc=[{printTree j}]"
-    else r := r.addCover "std-not-both-accept"
-  else r := r.addCover "std-not-plain-type"
+  r := stdMonitor r s l fs j "U" "json-bytes"
+  return r
+
+def optsOfBits (b : Nat) : Opts :=
+  { canon := b % 2 = 1, fromString := (b / 2) % 2 = 1, fromArray := (b / 4) % 2 = 1, opaqueKeys := (b / 8) % 2 = 1 }
+
+/-- the mapping-level entry points `mapping.Unmarshal{Json,Yaml,Toml}{Bytes,Reader}` with one option set. -/
+def runMunm (r : Report) (s : Section) (l : Line) (fs : Fields) (bits : Nat) (j : J) : Report := Id.run do
+  let mut r := r
+  let o : Opts := { optsOfBits bits with env := envOfTy (.struct fs) }
+  let mJ := eitherF32 (fun o => printRes (unmarshalWith o fs j)) o (obs? l.obs "MJB")
+  let mY := eitherF32 (fun o => printRes (unmarshalYaml o fs (embY j))) o (obs? l.obs "MYB")
+  let mT := eitherF32 (fun o => tomlFront j (fun t => printRes (unmarshalToml o fs t))) o (obs? l.obs "MTB")
+  r := checkTok r s l "MJB" mJ
+  r := checkTok r s l "MJR" mJ
+  r := checkTok r s l "MYB" mY
+  r := checkTok r s l "MYR" mY
+  r := checkTok r s l "MTB" mT
+  r := checkTok r s l "MTR" mT
+  r := r.addCover s!"munm-opts-{bits}"
+  r := r.addCover ("munm-" ++ classOf mJ)
+  if o.canon ∧ mJ.startsWith "ok:" ∧ printRes (unmarshalWith { o with canon := false } fs j) ≠ mJ then
+    r := r.addCover "munm-canon-matters"
+  if o.fromString ∧ mJ.startsWith "ok:" ∧ printRes (unmarshalWith { o with fromString := false } fs j) ≠ mJ then
+    r := r.addCover "munm-stringvalues-matters"
+  if o.fromArray ∧ mJ.startsWith "ok:" ∧ printRes (unmarshalWith { o with fromArray := false } fs j) ≠ mJ then
+    r := r.addCover "munm-fromarray-matters"
+  if printRes (unmarshalWith { o with opaqueKeys := !o.opaqueKeys } fs j) ≠ mJ then
+    r := r.addCover "munm-opaquekeys-matters"
+  -- monitor, on the implementation's observations only
+  let g (k : String) : String := (obs? l.obs k).getD "?"
+  if l.obs.any (fun t => t.endsWith "=panic") then
+    let cls := if printRes (unmarshalWith { o with f32Pinned := true } fs j) = "panic" then "env-float32-pointer" else "panic"
+    r := r.violation s.idx l.idx s!"loader-panicked class={cls} at=mapping opts={bits} obs=[{joinSp (l.obs.filter fun t => t.endsWith "=panic")}] doc=[{printTree j}]"
+  if g "MJB" ≠ g "MJR" ∨ g "MYB" ≠ g "MYR" ∨ g "MTB" ≠ g "MTR" then
+    r := r.violation s.idx l.idx s!"reader-differs-from-bytes class=reader opts={bits} MJB=[{g "MJB"}] MJR=[{g "MJR"}] MYB=[{g "MYB"}] MYR=[{g "MYR"}] MTB=[{g "MTB"}] MTR=[{g "MTR"}]"
+  if inScope j then
+    r := r.addCover "mapping-format-independence-checked"
+    let t := g "MTB"
+    if g "MJB" ≠ g "MYB" ∨ (t ≠ "skip" ∧ g "MJB" ≠ t) then
+      r := r.violation s.idx l.idx s!"format-dependent class=mapping-format opts={bits} MJB=[{g "MJB"}] MYB=[{g "MYB"}] MTB=[{t}] doc=[{printTree j}]"
+  else
+    r := r.addCover (if noNull j then "mapping-excluded-noncanonical-number" else "mapping-excluded-null")
+  if bits = 0 then
+    if hasEmbeddedDeep (.struct fs) ∨ tyHasStringOpt (.struct fs) then r := r.addCover "std-embedded-not-modelled"
+    else r := checkTok r s l "S" (printRes (stdDecode fs j))
+    r := stdMonitor r s l fs j "MJB" "json-bytes"
+    if inScope j then
+      r := stdMonitor r s l fs j "MYB" "yaml-bytes"
+      if g "MTB" ≠ "skip" then r := stdMonitor r s l fs j "MTB" "toml-bytes"
+  return r
+
+/-- documents whose keys collide up to case: every loader is run many times by the harness. -/
+def runCload (r : Report) (s : Section) (l : Line) (fs : Fields) (j : J) : Report := Id.run do
+  let mut r := r
+  let oc : Opts := { confOpts with env := envOfTy (.struct fs) }
+  let g (k : String) : String := (obs? l.obs k).getD "?"
+  r := r.addCover (if noCaseCollision j then "cload-no-collision" else "cload-collision")
+  -- monitor first: the load must be a function of the document
+  let nd := ["CJ", "CY", "CT"].filter fun k => g k = "nondet"
+  if l.obs.any (fun t => t.endsWith "panic") then
+    let cls := if printRes (loadJsonDet { oc with f32Pinned := true } fs j) = "panic" then "env-float32-pointer" else "panic"
+    r := r.violation s.idx l.idx s!"loader-panicked class={cls} obs=[{joinSp l.obs}] doc=[{printTree j}]"
+  if nd ≠ [] then
+    r := r.violation s.idx l.idx s!"nondeterministic-load class=case-collision loaders=[{joinSp nd}] the same document loaded repeatedly gives different results doc=[{printTree j}]"
+  else
+    r := checkTok r s l "CJ" ("det:" ++ eitherF32 (fun o => printRes (loadJsonDet o fs j)) oc ((obs? l.obs "CJ").map fun x => (x.drop 4).toString))
+    r := checkTok r s l "CY" ("det:" ++ eitherF32 (fun o => printRes (loadYamlDet o fs (embY j))) oc ((obs? l.obs "CY").map fun x => (x.drop 4).toString))
+    let mT := eitherF32 (fun o => let x := tomlFront j (fun t => printRes (loadTomlDet o fs t)); if x = "skip" then x else "det:" ++ x) oc (obs? l.obs "CT")
+    r := checkTok r s l "CT" mT
+    r := r.addCover ("cload-" ++ classOf ((g "CJ").drop 4).toString)
+    if inScope j ∧ (g "CJ" ≠ g "CY" ∨ (g "CT" ≠ "skip" ∧ g "CJ" ≠ g "CT")) then
+      r := r.violation s.idx l.idx s!"format-dependent class=format-collision CJ=[{g "CJ"}] CY=[{g "CY"}] CT=[{g "CT"}] doc=[{printTree j}]"
+  return r
+
+def f32Ty : Fields := .cons { name := "X".toList, key := "x".toList, optional := false, embedded := false } (.prim (.float 32)) .nil
+
+/-- `{"x":<lit>}` into `struct{X float32}`: go-zero against encoding/json on literals that are close to a float32 tie. -/
+def runF32 (r : Report) (s : Section) (l : Line) (lit : String) : Report := Id.run do
+  let mut r := r
+  let j : J := .obj (.cons "x".toList (.num lit.toList) .nil)
+  let g (k : String) : String := (obs? l.obs k).getD "?"
+  let mU := eitherF32 (fun o => printRes (unmarshalWith o f32Ty j)) {} (obs? l.obs "U")
+  r := checkTok r s l "U" mU
+  r := checkTok r s l "L" (eitherF32 (fun o => printRes (loadJsonO o f32Ty j)) confOpts (obs? l.obs "L"))
+  r := checkTok r s l "S" (printRes (stdDecode f32Ty j))
+  r := r.addCover (if f32StableDoc j then "f32-stable-literal" else "f32-double-rounding-literal")
+  if mU ≠ printRes (unmarshalWith {} f32Ty j) then r := r.addCover "pinned-float32-double-rounding"
+  if (g "U").startsWith "ok:" ∧ (g "S").startsWith "ok:" ∧ g "U" ≠ g "S" then
+    r := r.violation s.idx l.idx s!"std-disagree class=float32-double-rounding at=json-bytes go-zero=[{g "U"}] encoding/json=[{g "S"}] doc=[{printTree j}]"
+  if (g "L").startsWith "ok:" ∧ (g "S").startsWith "ok:" ∧ g "L" ≠ g "S" then
+    r := r.violation s.idx l.idx s!"std-disagree class=float32-double-rounding at=conf-load go-zero=[{g "L"}] encoding/json=[{g "S"}] doc=[{printTree j}]"
+  return r
+
+/-- `os.ExpandEnv` on the references the generator writes (`C17V` = "xv", `C17UNSET` unset). -/
+def expandStr (s : Str) : Str :=
+  (((String.ofList s).replace "${C17V}" "xv").replace "${C17UNSET}" "" |>.replace "$C17V" "xv").toList
+
+mutual
+def expandDoc : J → J
+  | .str s => .str (expandStr s)
+  | .arr l => .arr (expandDocList l)
+  | .obj m => .obj (expandDocMap m)
+  | v => v
+def expandDocList : JL → JL
+  | .nil => .nil
+  | .cons h t => .cons (expandDoc h) (expandDocList t)
+def expandDocMap : JM → JM
+  | .nil => .nil
+  | .cons k v t => .cons k (expandDoc v) (expandDocMap t)
+end
+
+mutual
+def docHasDollar : J → Bool
+  | .str s => s.contains '$'
+  | .arr l => docHasDollarList l
+  | .obj m => docHasDollarMap m
+  | _ => false
+def docHasDollarList : JL → Bool
+  | .nil => false
+  | .cons h t => docHasDollar h || docHasDollarList t
+def docHasDollarMap : JM → Bool
+  | .nil => false
+  | .cons _ v t => docHasDollar v || docHasDollarMap t
+end
+
+/-- `conf.Load / LoadConfig / MustLoad` on a file: loader by extension, content expanded iff `UseEnv`. -/
+def runFload (r : Report) (s : Section) (l : Line) (fs : Fields) (ext : String) (useEnv : Bool) (api : String) (j : J) : Report := Id.run do
+  let mut r := r
+  let oc : Opts := { confOpts with env := envOfTy (.struct fs) }
+  let j' := if useEnv then expandDoc j else j
+  let impl := l.obs.headD "?"
+  let model : String :=
+    match loaderOf ext.toList with
+    | none => "err"
+    | some .json => eitherF32 (fun o => printRes (loadJsonO o fs j')) oc (some impl)
+    | some .yaml => eitherF32 (fun o => printRes (loadYamlO o fs (embY j'))) oc (some impl)
+    | some .toml => eitherF32 (fun o => tomlFront j' (fun t => printRes (loadTomlO o fs t))) oc (some impl)
+  r := r.addCover s!"fload-{api}-{classOf model}"
+  r := r.addCover (match loaderOf ext.toList with | none => "fload-unknown-ext" | some f => s!"fload-{repr f}")
+  if docHasDollar j then r := r.addCover (if useEnv then "fload-env-expanded" else "fload-env-literal")
+  if impl ≠ model then r := r.mismatch s.idx l.idx model impl
+  let want := if api = "MustLoad" ∧ model.startsWith "ok:" then ["M=same"] else []
+  if l.obs.drop 1 ≠ want then r := r.mismatch s.idx l.idx (joinSp (model :: want)) (joinSp l.obs)
+  -- monitor: the result on the file is the result of the format's loader on the (un)expanded document
+  if impl = "panic" then
+    let cls := if printRes (loadJsonO { oc with f32Pinned := true } fs j') = "panic" then "env-float32-pointer" else "panic"
+    r := r.violation s.idx l.idx s!"loader-panicked class={cls} at=conf.{api} ext={ext}"
+  if l.obs.contains "M=diff" then
+    r := r.violation s.idx l.idx s!"MustLoad-differs-from-Load class=file-api ext={ext}"
+  if docHasDollar j ∧ impl.startsWith "ok:" then
+    let other := match loaderOf ext.toList with
+      | some .json => printRes (loadJsonO oc fs (if useEnv then j else expandDoc j))
+      | some .yaml => printRes (loadYamlO oc fs (embY (if useEnv then j else expandDoc j)))
+      | some .toml => tomlFront (if useEnv then j else expandDoc j) (fun t => printRes (loadTomlO oc fs t))
+      | none => "err"
+    if impl = other ∧ impl ≠ model then
+      r := r.violation s.idx l.idx
+        (if useEnv then s!"env-not-expanded-with-UseEnv class=env impl=[{impl}]" else s!"env-expanded-without-UseEnv class=env impl=[{impl}]")
   return r
 
 def expandVar (name val : String) : String := if name = "C17unset" then "" else val
@@ -309,7 +553,6 @@ def runFile (r : Report) (s : Section) (l : Line) : Report :=
   | _ => r.mismatch s.idx l.idx "bad-op" (joinSp l.op)
 
 def runSection (r : Report) (s : Section) : Report := Id.run do
-  let strict := kvNat s.cfg "strict" 0 = 1
   let mut st : St := {}
   let mut r := r
   for l in s.lines do
@@ -320,6 +563,8 @@ def runSection (r : Report) (s : Section) : Report := Id.run do
       | some fs =>
         st := { fs := some fs }
         r := r.addCover (if plainTy (.struct fs) then "type-plain" else "type-tagged")
+        if tyHasDotKey (.struct fs) then r := r.addCover "type-dotted-key"
+        if envOfTy (.struct fs) ≠ [] then r := r.addCover "type-env-tag"
         if joinSp l.obs ≠ "ok" then r := r.mismatch s.idx l.idx "ok" (joinSp l.obs)
       | none => r := r.mismatch s.idx l.idx "bad-type" t
     | ["load", _, d, d2] =>
@@ -327,8 +572,34 @@ def runSection (r : Report) (s : Section) : Report := Id.run do
       | none => if joinSp l.obs ≠ "no-type" then r := r.mismatch s.idx l.idx "no-type" (joinSp l.obs)
       | some fs =>
         match parseDocTok d, (if d2 = "-" then some none else (parseDocTok d2).map some) with
-        | some j, some j2 => r := runLoad r s l fs strict j j2
+        | some j, some j2 => r := runLoad r s l fs j j2
         | _, _ => r := r.mismatch s.idx l.idx "bad-doc" d
+    | ["munm", bits, _, d] =>
+      match st.fs with
+      | none => if joinSp l.obs ≠ "no-type" then r := r.mismatch s.idx l.idx "no-type" (joinSp l.obs)
+      | some fs =>
+        match parseDocTok d, bits.toNat? with
+        | some j, some b => r := runMunm r s l fs b j
+        | _, _ => r := r.mismatch s.idx l.idx "bad-doc" d
+    | ["cload", _, d] =>
+      match st.fs, parseDocTok d with
+      | some fs, some j => r := runCload r s l fs j
+      | _, _ => r := r.mismatch s.idx l.idx "bad-cload" d
+    | ["f32", lit] => r := runF32 r s l lit
+    | ["filldef"] =>
+      match st.fs with
+      | some fs =>
+        let model := eitherF32 (fun o => printRes ((fillDefaults o fs).map .struct)) { env := envOfTy (.struct fs) } (some (joinSp l.obs))
+        r := r.addCover ("filldef-" ++ classOf model)
+        if joinSp l.obs ≠ model then r := r.mismatch s.idx l.idx model (joinSp l.obs)
+        if joinSp l.obs = "panic" then
+          let cls := if printRes ((fillDefaults { env := envOfTy (.struct fs), f32Pinned := true } fs).map .struct) = "panic" then "env-float32-pointer" else "panic"
+          r := r.violation s.idx l.idx s!"loader-panicked class={cls} at=FillDefault"
+      | none => r := r.mismatch s.idx l.idx "no-type" (joinSp l.obs)
+    | ["fload", ext, env, api, _, d] =>
+      match st.fs, parseDocTok d with
+      | some fs, some j => r := runFload r s l fs ext (env = "1") api j
+      | _, _ => r := r.mismatch s.idx l.idx "bad-fload" d
     | "file" :: _ => r := runFile r s l
     | _ => r := r.mismatch s.idx l.idx "bad-op" (joinSp l.op)
   return r
